@@ -51,6 +51,11 @@ func (f *iterateFam) Roots() []Program {
 					{"s = s[1 ..]", "v = s[0]"},
 					{"i += 1"},
 					{"if s[0] == 0 {", "v = 1", "}"},
+					// break / continue targeting the iterate (each round and unrolled copy is its own
+					// C loop; found by reading cgen after a sub-agent's remark, DESIGN 10.2 #50)
+					{"if s[0] == 0 {", "break", "}", "v ~mod+= 1"},
+					{"if s[0] == 1 {", "continue", "}", "v ~mod+= 1"},
+					{"v ~mod+= 1", "if s[0] == 0 {", "continue", "}", "if s[0] == 1 {", "break", "}", "v ~mod+= 2"},
 				}
 				if L >= 2 {
 					bodies = append(bodies, []string{"this.q = s.peek_u16le()"}, []string{"this.q = s[1 ..].peek_u16le()"})
@@ -61,7 +66,7 @@ func (f *iterateFam) Roots() []Program {
 				for bi, b := range bodies {
 					for _, U := range unrolls {
 						for _, el := range elses {
-							if !f.thorough && U == 2 && (bi%3 != 0 || el != "") {
+							if !f.thorough && U == 2 && (bi%3 != 0 || el != "") && !strings.Contains(strings.Join(b, " "), "break") {
 								continue
 							}
 							for _, pr := range probes {
